@@ -3,7 +3,7 @@
 // Contracts for package path (without the generated peg.go), checked by /verif/govc (comment-only; compiled only with -tags verif).
 package path
 
-//@ prelude c16 c15
+//@ prelude c13 c16 c15
 
 //@ func build(source string, parsed any) PropertyPath
 //@   verify [C02]
@@ -22,6 +22,7 @@ package path
 //@   verify [C07,C02]
 //@   ensures [C16:empty-is-null-path] path == "" ==> (result1 == nil && is(result0, path.NullPath) && result0.(path.NullPath).source == "")
 //@   ensures [C16:error-or-path] path != "" ==> (result1 != nil ==> result0 == nil)
+//@   ensures [C07:source-on-one-line] (path != "" && result1 == nil) ==> ((is(result0, path.Property) ==> result0.(path.Property).source == strJoin(strFields(path), " ")) && (is(result0, path.AndPath) ==> result0.(path.AndPath).source == strJoin(strFields(path), " ")) && (is(result0, path.OrPath) ==> result0.(path.OrPath).source == strJoin(strFields(path), " ")))
 
 // ---- everything that reaches the policy goes through Expand (C15) -----------------------------------------------------
 
